@@ -1,6 +1,6 @@
 (* C02: the encoder emits exactly the published wire format, with canonical varints. *)
 From PV Require Import Base MachineInt VarintParams GenArith GenLoops Varint Utf8 DataModel Ser De
-  WireFormat VarintFacts VarintCore ZigZagFacts SerFacts.
+  WireFormat VarintFacts VarintCore ZigZagFacts SerFacts SerMethods SerMethodFacts.
 Open Scope N_scope.
 
 (* every typed value serialises (no refusal) to exactly the wire-format.md encoding *)
@@ -54,6 +54,18 @@ Theorem C02_source_loops_are_standard :
                   std_reader u64 DeserializeBadVarint; std_reader u128 DeserializeBadVarint].
 Proof. exact (conj core_writers_std core_readers_std). Qed.
 
+(* the serializer model is not only run against the code: each of its clauses is what the body
+   of the corresponding method of ser/serializer.rs computes.  ser_via_methods drives an
+   interpreter over the method bodies the translator reads on every run (all 30 serialize_*
+   methods, the five try_push_varint_* helpers, the eight element / field / key / value
+   methods; collect_str by template) the way serde's Serialize impls call them *)
+Theorem C02_model_is_the_method_bodies : forall v : value,
+  ser_via_methods v = ser_ops v.
+Proof. exact ser_methods_agree. Qed.
+Theorem C02_encoding_of_the_method_bodies : forall v : value,
+  flatten_ops (fst (ser_via_methods v)) = enc v /\ snd (ser_via_methods v) = ser_err v.
+Proof. exact enc_via_methods. Qed.
+
 Example C02_example :
   has_type (VStruct [VInt I32 (-300); VSome (VStr [104; 105]); VVariant 1 (VNewtype (VF32 1065353216))])
            (TStruct [TInt I32; TOption TStr; TEnum [TUnitStruct; TNewtype TF32]]) = true /\
@@ -69,3 +81,5 @@ Print Assumptions C02_usize_is_u64.
 Print Assumptions C02_unknown_length_refused.
 Print Assumptions C02_collect_str.
 Print Assumptions C02_source_loops_are_standard.
+Print Assumptions C02_model_is_the_method_bodies.
+Print Assumptions C02_encoding_of_the_method_bodies.
